@@ -176,6 +176,21 @@ def run(ctx: core.Ctx):
     ctx.extra["model_check"] = {"keys": 2, "values": 3, "depth": 4, "steps": 6 if q else 8, "distinct": r.distinct}
     ctx.expect_canary(ctx.tlc("MC_Settings", write_cfg("MC_Settings_canary", base.format(nk=2, d=3, m=5, e="FALSE", ra="TRUE", df="no")
                                                        + "PROPERTY PropExitRestores\nVIEW View\nCHECK_DEADLOCK FALSE\n"), workers=4), "RestoreAll")
+    # unbounded history: the two action properties hold for one step from ANY well-typed state (Apalache, spec/Apa_Settings.tla)
+    from .tlc import SPEC, WORK, apalache
+    ok, cmd = apalache(SPEC / "Apa_Settings.tla", inv="StepOK")
+    if not ok:
+        raise MachineryError("Apa_Settings: the step invariant StepOK is violated on the model")
+    ctx.cmds.append(cmd + " spec/Apa_Settings.tla")
+    bad = WORK / "apa" / "Apa_Settings.tla"
+    bad.parent.mkdir(parents=True, exist_ok=True)
+    bad.write_text((SPEC / "Apa_Settings.tla").read_text().replace("RestoreAll == FALSE", "RestoreAll == TRUE"))
+    ok2, _ = apalache(bad, inv="StepOK")
+    bad.unlink()
+    if ok2:
+        raise MachineryError("Apa_Settings canary (RestoreAll) was expected to violate StepOK")
+    ctx.extra["apalache_step_invariant"] = {"module": "Apa_Settings", "init": "any well-typed state (stack <= 5 frames, 3 keys, 3 values)", "inv": "ExitRestores /\\ EnterVisible", "length": 1,
+                                            "holds": True, "canary_RestoreAll_violated": True}
     g = ctx.tlc("MC_Settings", write_cfg("Gen_Settings", base.format(nk=2, d=4, m=4 if q else 5, e="TRUE", ra="FALSE", df="no")
                                          + "INVARIANT EmitInv\nCHECK_DEADLOCK FALSE\n"), workers=16, timeout=3000)
     behs = [(b, 2) for b in g.emitted]
